@@ -132,7 +132,20 @@ impl Stats {
             sd = fnv_more(sd, &s.to_le_bytes());
         }
         self.distinct_schedules.insert(sd ^ tree_digest);
-        let any_fired = !o.fired.is_empty();
+        // workload dimensions that are faults by construction (they "fire" whenever configured)
+        let mut bump = |k: &str| *self.fired.entry(k.to_string()).or_insert(0) += 1;
+        match inv.src_age {
+            1 => bump("clock_skew:sources_older_than_outputs"),
+            2 => bump("clock_skew:sources_from_the_future"),
+            _ => {}
+        }
+        if !inv.roots.is_empty() {
+            bump("several_cli_roots");
+        }
+        if !inv.out_sub.is_empty() {
+            bump("nested_output_path");
+        }
+        let any_fired = !o.fired.is_empty() || inv.src_age != 0;
         if !inv.faults.is_empty() {
             self.faulted_invocations += 1;
             if o.oplog.iter().any(|op| op.op == "read" || op.op == "write" || op.op == "create" || op.op == "mkdir") {
